@@ -251,6 +251,20 @@ def f_tdh_bc_decreasing():
     return Fault("TDH bunch counter decreasing after a completed packet", {"440"}, RUNITS, True, apply)
 
 
+def _tdh_after(s, rng, pos, prev_kind):
+    """set the continuation bit on a TDH whose predecessor in the same payload is a TDT (packet done) / a no-data TDH"""
+    def cands(p):
+        return [k for k in range(2, len(p.words)) if p.words[k][0] == "TDH" and not_cont(p.words[k][1]) and p.words[k - 1][0] == prev_kind]
+    t = link_pkts(s, rng, lambda l, i, p: bool(cands(p)), pos)
+    if not t:
+        return None
+    l, i, p = t
+    k = rng.choice(cands(p))
+    f = its.tdh_fields(p.words[k][1])
+    p.words[k][1] = its.tdh(f["trigger_type"], f["internal"], f["no_data"], 1, f["bc"], f["orbit"])
+    return dict(target=("word", l, i, k), what="TDH word %d (after a %s) continuation = 1" % (k, prev_kind))
+
+
 def first_tdh_page0(s, l, i, p):
     return p.f["pages_counter"] == 0 and len(p.words) > 1 and p.words[1][0] == "TDH"
 
@@ -310,6 +324,12 @@ CATALOGUE = [
     f_ihw_stop(),
     word_fault("continuation TDH without the continuation bit", "TDH", tdh_mod(cont=0), {"41"}, RUNITS, True, wpred=is_cont),
     word_fault("continuation bit on a TDH that starts a packet", "TDH", tdh_mod(cont=1), {"42"}, RUNITS, True, wpred=not_cont),
+    # the same rule at each of the places where a packet can start
+    word_fault("continuation bit on the first TDH of page 0", "TDH", tdh_mod(cont=1), {"42"}, RUNITS, True, wpred=not_cont, ppred=first_tdh_page0),
+    word_fault("continuation bit on the first TDH of a page > 0", "TDH", tdh_mod(cont=1), {"42"}, RUNITS, True, wpred=not_cont,
+               ppred=lambda s, l, i, p: p.f["pages_counter"] > 0 and len(p.words) > 1 and p.words[1][0] == "TDH" and not_cont(p.words[1][1])),
+    Fault("continuation bit on a TDH that follows a completed packet in the same page", {"42"}, RUNITS, True, lambda s, rng, pos: _tdh_after(s, rng, pos, "TDT")),
+    Fault("continuation bit on a TDH that follows a no-data TDH", {"42"}, RUNITS, True, lambda s, rng, pos: _tdh_after(s, rng, pos, "TDH")),
     word_fault("continuation TDH with another bc", "TDH", tdh_mod(bc=lambda v, rng: (v + 1) % 0xDEC), {"441"}, RUNITS, True, wpred=is_cont),
     word_fault("continuation TDH with another orbit", "TDH", tdh_mod(orbit=lambda v, rng: v ^ 1), {"442"}, RUNITS, True, wpred=is_cont),
     word_fault("continuation TDH with another trigger type", "TDH", tdh_mod(trigger_type=lambda v, rng: v ^ 0x4), {"443"}, RUNITS, True, wpred=is_cont),
@@ -339,6 +359,12 @@ def make_base(rng, fault_idx):
     name = CATALOGUE[fault_idx].name
     if "continuation" in name:
         kw.update(p_split=0.7)
+    if "page > 0" in name:
+        kw.update(p_split=0.0, max_pages=4, max_triggers=8, p_nodata=0.2)
+    if "follows a completed packet" in name:
+        kw.update(p_split=0.0, max_pages=1, max_triggers=8, p_nodata=0.0)
+    if "follows a no-data TDH" in name:
+        kw.update(p_split=0.0, max_pages=1, max_triggers=8, p_nodata=0.6)
     if "CDW" in name:
         kw.update(p_cdw=1.0, p_nodata=0.0, hbfs=4)
     if "decreasing" in name:
